@@ -92,18 +92,48 @@ Definition dim_used (d : name) (vs : list pvar) : bool := existsb (fun v => in_n
 Definition conv_dim (vs : list pvar) (d : dim) : dim :=
   Dim (d_name d) (if d_unlim d then (if dim_used (d_name d) vs then d_len d else 0) else d_len d) (d_unlim d).
 
-(* dflt = the bit pattern of -9999 in the variable's dtype (only used when nothing else is defined) *)
-Definition conv_var (dflt : Z) (v : pvar) : dvar :=
-  let fill := chosen_fill v in
-  DVar (p_name v) (p_dt v) (p_dims v) fill (p_mv v)
-       (conv_attrs ignore_variable (p_attrs v))
-       (load_cells (eff_fill v) (p_mv v) (store_cells (data_fill v dflt) (p_cells v))).
+(* ---- stage 1: what Pseudo2NetCDF asks the netCDF library to write (no assumption involved) *)
+Record ivar := IVar {
+  i_name : name; i_dt : Z; i_dims : list name;
+  i_fill : option Z;                 (* createVariable(..., fill_value=...) *)
+  i_mv : option Z; i_dfill : option Z;
+  i_attrs : list (name * aval);      (* setncattr calls, in order *)
+  i_raw : list Z                     (* the array assigned to nvar[...] *)
+}.
+Record idim := IDim { id_name : name; id_size : option Z (* None = createDimension(d, None) *); id_len : Z; id_used : bool }.
+Record image := Image { im_dims : list idim; im_gattrs : list (name * aval); im_vars : list ivar }.
 
-(* save followed by open, as PseudoNetCDF + the assumed library do it *)
-Definition impl_save_open (dflt : Z) (f : pfile) : nfile :=
-  NFile (map (conv_dim (pf_vars f)) (pf_dims f))
-        (conv_attrs ignore_global (pf_gattrs f))
-        (map (conv_var dflt) (pf_vars f)).
+(* dflt = the bit pattern of -9999 in the variable's dtype (only used when nothing else is defined) *)
+Definition convert_var (dflt : Z) (v : pvar) : ivar :=
+  IVar (p_name v) (p_dt v) (p_dims v) (chosen_fill v) (p_mv v) (p_dfill v)
+       (conv_attrs ignore_variable (p_attrs v))
+       (store_cells (data_fill v dflt) (p_cells v)).
+Definition convert_dim (vs : list pvar) (d : dim) : idim :=
+  IDim (d_name d) (if d_unlim d then None else Some (d_len d)) (d_len d) (dim_used (d_name d) vs).
+Definition impl_convert (dflt : Z) (f : pfile) : image :=
+  Image (map (convert_dim (pf_vars f)) (pf_dims f)) (conv_attrs ignore_global (pf_gattrs f))
+        (map (convert_var dflt) (pf_vars f)).
+
+(* ---- stage 2: ASSUMED behaviour of netCDF-C / netCDF4-python when the image is read back:
+   identity, except that (a) an unlimited dimension is as long as what was written along it (0 when no
+   variable uses it), (b) cells equal to _FillValue, or to the type's default fill value when no
+   _FillValue was defined, or to the missing_value attribute are presented as masked *)
+Definition nc_mask_fill (w : ivar) : option Z := match i_fill w with Some c => Some c | None => i_dfill w end.
+Definition nc_load_var (w : ivar) : dvar :=
+  DVar (i_name w) (i_dt w) (i_dims w) (i_fill w) (i_mv w) (i_attrs w)
+       (load_cells (nc_mask_fill w) (i_mv w) (i_raw w)).
+Definition nc_load_dim (d : idim) : dim :=
+  match id_size d with
+  | Some n => Dim (id_name d) n false
+  | None => Dim (id_name d) (if id_used d then id_len d else 0) true
+  end.
+Definition nc_load (im : image) : nfile :=
+  NFile (map nc_load_dim (im_dims im)) (im_gattrs im) (map nc_load_var (im_vars im)).
+
+Definition conv_var (dflt : Z) (v : pvar) : dvar := nc_load_var (convert_var dflt v).
+
+(* save followed by open = the assumed reader applied to what PseudoNetCDF wrote *)
+Definition impl_save_open (dflt : Z) (f : pfile) : nfile := nc_load (impl_convert dflt f).
 
 (* ---- what the property demands: the same file (booleans compared as integers) *)
 Definition spec_attrs (l : list (name * aval)) : list (name * aval) :=
